@@ -23,5 +23,7 @@ def run(ctx):
     from ..kani import kani_family
     kani_family(ctx, 'order.zero', 'the comparison functions rest on Ord for NumberValue: the literals 0 and -0 are one number (equal, unordered, same relation to every other number)',
                 [('k_zero_spellings', 'zero-spellings', 'Ord / Eq for NumberValue on Positive(0) / Negative(0)'), ('k_from_f64_normalises', 'from-f64', 'numeric results with zero fractional part are integers: From<f64> gives Positive for every integral double in [0, 2^64) (-0.0 included), Negative below zero')], ['json_value.rs'], timeout_s=600)
+    from ..scen_kernels2 import binding_forms
+    binding_forms(ctx)       # (set n v e) / (define n m e): e in exactly the context derived by binding n (to the value / to the getter itself)
     from ..scen_purity import getter_purity
     getter_purity(ctx)       # a getter that keeps state (cell, thread-local, static) must still be a function of its arguments
